@@ -6,5 +6,5 @@ name="$1"; shift
 d=/tmp/iso-$name
 rm -rf "$d"; mkdir -p "$d"
 git clone -q /repo "$d/repo" && git clone -q /verif "$d/verif" || exit 2
-sed -i "s|path = \"/repo\"|path = \"$d/repo\"|" "$d/verif/harness/Cargo.toml"
+sed -i "s|path = \"/repo\"|path = \"$d/repo\"|" "$d/verif/harness/Cargo.toml" "$d/verif/noserde/Cargo.toml"
 cd "$d/verif" && exec "$@"
